@@ -59,7 +59,16 @@ func execWSched(sc *wsScn, prefix []int) (res sched.Res) {
 	}
 	w.Invariants()
 	if len(w.V) > 0 {
-		return sched.Res{Err: "init raised: " + w.V[0].Key + ": " + w.V[0].What}
+		// the sequential set-up already breaks an invariant: report that (once per scenario), nothing to schedule
+		for _, v := range w.V {
+			if v.Property == "HARNESS" {
+				return sched.Res{Err: v.What}
+			}
+			v.Key = sc.name + "/set-up/" + v.Key
+			v.What = fmt.Sprintf("during the sequential set-up %v: %s", sc.init, v.What)
+			res.V = append(res.V, v)
+		}
+		return res
 	}
 	s := sched.New(prefix)
 	for _, ww := range w.Wallets {
